@@ -161,16 +161,17 @@ def work(ctx, idx):
     wr = WorkResult()
     cfg = TIERS[ctx.tier]
     rng = ctx.rng('scn', idx)
-    sc = scenario.gen_scenario(rng, want={'flavors': ['nr', 'nr', 'r', 'r', 'c99']})
+    sc = scenario.gen_scenario(rng, want={'flavors': ['nr', 'nr', 'r', 'r', 'c99', 'cxx']})
     b = ctx.build(sc)
+    cxx = sc.flavor == 'cxx'       # the C++ lexer has no stdio input path: allocation failures only
     sc_s = copy.copy(sc)
     sc_s._matchers = {}
     sc_s.user_input = False
-    bs = ctx.build(sc_s)
+    bs = ctx.build(sc_s) if not cxx else b
     sc_r = copy.copy(sc_s)
     sc_r._matchers = {}
     sc_r.use_read = True          # %option read: yyread() is read(fileno(yyin), ...)
-    br = ctx.build(sc_r)
+    br = ctx.build(sc_r) if not cxx else b
     if not b.ok or not bs.ok:
         if b.stage == 'flex' or bs.stage == 'flex':
             wr.refused += 1
@@ -222,7 +223,7 @@ def work(ctx, idx):
                 wr.samples.append({'scenario': idx, 'flex_args': sc.flex_args(), 'plan_text': p.text().split('\n')[:12],
                                    'allocation_points_enumerated': pts[:20]})
         # ---- read faults on the stdio paths
-        for mode in ('fread', 'getc', 'read'):
+        for mode in (() if cxx else ('fread', 'getc', 'read')):
             interactive = mode == 'getc'
             if mode == 'read' and not br.ok:
                 continue
